@@ -250,7 +250,7 @@ pub fn build_h1(p: H1P) -> Scenario<Arc<H1>> {
     };
     Scenario {
         name: p.name.to_string(),
-        opts: Opts { stale_reads: p.stale, stale_depth: 3, max_spurious: 0, horizon: 5_000, log_ops: false, log_handler_ops: false, reduce: false, no_discipline: false, nest_value_t1: 0 },
+        opts: Opts { stale_reads: p.stale, stale_depth: 3, max_spurious: 0, horizon: 5_000, log_ops: false, log_handler_ops: false, reduce: false, no_discipline: false, nest_value_t1: 0, post_points: false },
         signals: vec![S1],
         setup: Box::new(setup),
         threads,
@@ -703,7 +703,7 @@ pub fn build_reg(p: RP) -> Scenario<Arc<RS>> {
     };
     Scenario {
         name: p.name.to_string(),
-        opts: Opts { stale_reads: p.stale, stale_depth: 3, max_spurious: 0, horizon: 20_000, log_ops: false, log_handler_ops: false, reduce: false, no_discipline: false, nest_value_t1: 0 },
+        opts: Opts { stale_reads: p.stale, stale_depth: 3, max_spurious: 0, horizon: 20_000, log_ops: false, log_handler_ops: false, reduce: false, no_discipline: false, nest_value_t1: 0, post_points: false },
         signals: vec![S1, S2],
         setup: Box::new(setup),
         threads,
@@ -764,7 +764,7 @@ pub fn build_relay_h1(name: &'static str, stores: u32) -> Scenario<Arc<Relay>> {
     };
     Scenario {
         name: name.to_string(),
-        opts: Opts { stale_reads: false, stale_depth: 2, max_spurious: 0, horizon: 3_000, log_ops: false, log_handler_ops: false, reduce: false, no_discipline: false, nest_value_t1: 0 },
+        opts: Opts { stale_reads: false, stale_depth: 2, max_spurious: 0, horizon: 3_000, log_ops: false, log_handler_ops: false, reduce: false, no_discipline: false, nest_value_t1: 0, post_points: false },
         signals: vec![S1],
         setup: Box::new(setup),
         threads: vec![reader("R1"), reader("R2"), writer],
@@ -819,7 +819,7 @@ pub fn build_relay_reg(name: &'static str) -> Scenario<Arc<RelayReg>> {
     };
     Scenario {
         name: name.to_string(),
-        opts: Opts { stale_reads: false, stale_depth: 2, max_spurious: 0, horizon: 6_000, log_ops: false, log_handler_ops: false, reduce: false, no_discipline: true, nest_value_t1: 0 },
+        opts: Opts { stale_reads: false, stale_depth: 2, max_spurious: 0, horizon: 6_000, log_ops: false, log_handler_ops: false, reduce: false, no_discipline: true, nest_value_t1: 0, post_points: false },
         signals: vec![S1, S2],
         setup: Box::new(setup),
         threads: vec![deliverer("D1", S1), deliverer("D2", S2), mutator],
@@ -873,7 +873,7 @@ pub fn build_owner_drop(name: &'static str) -> Scenario<Arc<Owner>> {
     };
     Scenario {
         name: name.to_string(),
-        opts: Opts { stale_reads: true, stale_depth: 3, max_spurious: 0, horizon: 20_000, log_ops: false, log_handler_ops: false, reduce: false, no_discipline: false, nest_value_t1: 0 },
+        opts: Opts { stale_reads: true, stale_depth: 3, max_spurious: 0, horizon: 20_000, log_ops: false, log_handler_ops: false, reduce: false, no_discipline: false, nest_value_t1: 0, post_points: false },
         signals: vec![S1, S2],
         setup: Box::new(setup),
         threads: vec![m, d("D1", vec![S1, S2]), d("D2", vec![S2])],
@@ -980,7 +980,7 @@ pub fn scenarios(prop: &str, tier: Tier) -> Vec<Item> {
             p.deliverers = vec![vec![S1, S1]];
             p.nest = vec![S1];
             p.max_nest = 2;
-            v.push(item(build_reg(p), b(2, 3), "register B, unregister A, register C vs 2 deliveries + nested arrivals"));
+            v.push(item(build_reg(p), b(3, 4), "register B, unregister A, register C vs 2 deliveries + nested arrivals"));
             let mut p = rp("snapshot_two_signals_small", "C02");
             p.pre = vec![Reg(S1, 1), Reg(S2, 5)];
             p.mutators = vec![vec![Unreg(1), Reg(S1, 2)], vec![Reg(S2, 6)]];
